@@ -5,6 +5,7 @@ import (
 	"fmt"
 	"strings"
 
+	"github.com/goghcrow/yae"
 	"github.com/goghcrow/yae/types"
 	"github.com/goghcrow/yae/val"
 
@@ -24,7 +25,7 @@ func (c05) ID() string { return "C05" }
 func (c05) Meta(tier string) engine.Meta {
 	return engine.Meta{
 		Level: "model_checking",
-		Rule: "UNTYPED enumeration (well- and ill-typed alike) of all terms of depth <= 1 over 12 atoms of 12 types and 30 constructors (operators, overloaded and polymorphic built-ins, subscripts, present / absent members, list / map / object literals incl. duplicate fields), all depth-2 terms with one nested operand (quick: nested operand well-typed; thorough: any), every single-position replacement of a sub-term of the well-typed small-alphabet programs by an atom of every other type, six homogeneity contexts ([x,y], map values, if, ==, union, get) over all pairs of 96 composite operands that repeat variables, a variable of each of 16 types under 23 contexts, all pairs of five function-typed variables (num->num twice, num->str, str->num, (num,num)->num) under 8 homogeneity / call contexts, and eight families of additional user overloads (mono vs poly, two matching polys, undetermined result variable, object-typed mono parameters in both field orders also nested in objects / maps / optionals, polys that share type variables, overloads shadowing built-ins) registered in ALL k! orders (k<=4), each written once with separate and once with shared type-variable objects. Oracle: the reference checker's accept / reject and inferred type against types.Infer on the desugared tree and against Expr.Compile on two back ends; no accepted program may fail with a type error at run time. non-trivial = not a bare atom",
+		Rule: "UNTYPED enumeration (well- and ill-typed alike) of all terms of depth <= 1 over 12 atoms of 12 types and 30 constructors (operators, overloaded and polymorphic built-ins, subscripts, present / absent members, list / map / object literals incl. duplicate fields), all depth-2 terms with one nested operand (quick: nested operand well-typed; thorough: any), every single-position replacement of a sub-term of the well-typed small-alphabet programs by an atom of every other type, six homogeneity contexts ([x,y], map values, if, ==, union, get) over all pairs of 96 composite operands that repeat variables, a variable of each of 16 types under 23 contexts, all pairs of five function-typed variables (num->num twice, num->str, str->num, (num,num)->num) under 8 homogeneity / call contexts, and nine families of additional user overloads (mono vs poly, two matching polys, undetermined result variable, object-typed mono parameters in both field orders also nested in objects / maps / optionals, polys that share type variables, overloads shadowing built-ins, overloads extending built-ins to new argument types) registered in ALL k! orders (k<=4), each written once with separate and once with shared type-variable objects, and each family also registered AFTER the engine's first compilation with the program compiled before and after against one shared *types.Env; every reserved word bound in the environment and used as a variable. Oracle: the reference checker's accept / reject and inferred type against types.Infer on the desugared tree and against Expr.Compile on two back ends; no accepted program may fail with a type error at run time. non-trivial = not a bare atom",
 		Bound: "depth 2 with one nested operand; arity <= 3; k <= 4 extra overloads",
 		Assumptions: []string{
 			"⊥ (element type of [] / [:]) equals only itself, matches a bare type variable, and never equals a concrete parameter (README: bottom is only used for empty list / map)",
@@ -135,6 +136,8 @@ type c05Data struct {
 	// SharedVars: all signatures are written with one set of type-variable objects
 	SharedVars bool `json:"shared_vars,omitempty"`
 	EnvFuns    bool `json:"env_funs,omitempty"`
+	// Late: the signatures are registered after the engine's first compilation
+	Late bool `json:"late,omitempty"`
 }
 
 func zeroOf(t *gen.Ty) *ref.V {
@@ -255,6 +258,12 @@ func overloadFamilies() []ovFamily {
 			{"pick", []*gen.Ty{a, gen.List(a)}, gen.List(a), "poly-a-lista"},
 		}, []*gen.Term{c("pick", lst, str), c("pick", lst, one), c("pick", one, one), c("pick", str, str), c("pick", one, lst), c("pick", lst, gen.ListT(lst)),
 			gen.Infix("+", c("pick", lst, str), one), c("pick", gen.ListT(str), str), gen.Infix("+", c("pick", gen.ListT(str), str), str)}},
+		{"extend-builtins", []sigDesc{
+			{"len", []*gen.Ty{gen.Maybe(a)}, N, "user-len-maybe"},
+			{"max", []*gen.Ty{gen.Map(S, a)}, a, "user-max-map"},
+			{"string", []*gen.Ty{a, b}, S, "user-string-2"},
+		}, []*gen.Term{c("len", gen.VarT("mb")), gen.Infix("+", c("len", gen.VarT("mb")), c("len", lst)), c("len", lst), c("len", gen.VarT("m")), c("max", gen.VarT("m")), c("max", lst),
+			gen.Infix("+", c("max", gen.VarT("m")), c("max", lst)), c("string", one, str), c("string", one), gen.Infix("+", c("string", one), c("string", one, lst))}},
 		{"shadow-builtins", []sigDesc{
 			{"len", []*gen.Ty{S}, S, "user-len-str"},
 			{"len", []*gen.Ty{gen.List(a)}, S, "user-len-list"},
@@ -309,8 +318,11 @@ func (c05) Generate(tier string, yield func(*engine.Case) bool) {
 		return
 	}
 	// ---- untyped depth 2 with one nested operand
+	// quick: the nested operand is well-typed; thorough: any depth-1 term. The other operands come
+	// from 6 atoms in both tiers (with all 12 atoms the thorough space exceeds 3e7 programs and was
+	// never completed inside the deadline).
 	nested := d1
-	outer := atoms
+	outer := []*gen.Term{gen.NumT(1), gen.StrT("a"), gen.BoolT(true), gen.VarT("l"), gen.VarT("o"), gen.ListT()}
 	if tier != "thorough" {
 		nested = nil
 		funs := real.StdHost().RefFuns()
@@ -319,7 +331,6 @@ func (c05) Generate(tier string, yield func(*engine.Case) bool) {
 				nested = append(nested, t)
 			}
 		}
-		outer = []*gen.Term{gen.NumT(1), gen.StrT("a"), gen.BoolT(true), gen.VarT("l"), gen.VarT("o"), gen.ListT()}
 	}
 	for _, c := range ctors {
 		for pos := 0; pos < c.arity && ok; pos++ {
@@ -442,6 +453,25 @@ func (c05) Generate(tier string, yield func(*engine.Case) bool) {
 			}
 		}
 	}
+	// ---- reserved words can never be used as variables, even when the environment binds them
+	for _, w := range ref.ReservedWords() {
+		renv := real.EnvSpec{Rep: "raw", Binds: []real.Binding{{Name: w, V: ref.NumV(1)}, {Name: "n", V: ref.NumV(2)}}}
+		x := gen.VarT(w)
+		for _, t := range []*gen.Term{x, gen.Infix("+", x, gen.VarT("n")), gen.ListT(gen.VarT("n"), x), gen.CallT("if", gen.BoolT(true), gen.VarT("n"), x)} {
+			emitD("reserved-words", w, c05Data{Term: t, Env: renv})
+		}
+	}
+	// ---- overloads registered AFTER the engine's first compilation (they then follow the built-ins),
+	// with the target program compiled once before and once after, against one shared *types.Env
+	for _, fam := range overloadFamilies() {
+		tags := make([]string, len(fam.sigs))
+		for i, s := range fam.sigs {
+			tags[i] = s.Tag
+		}
+		for _, p := range fam.progs {
+			emitD("overloads-late-"+fam.name, "late:"+strings.Join(tags, ">"), c05Data{Term: p, Env: env, Sigs: fam.sigs, Late: true})
+		}
+	}
 	// ---- overload families in all registration orders
 	for _, fam := range overloadFamilies() {
 		for _, perm := range permutations(len(fam.sigs)) {
@@ -480,6 +510,9 @@ func (c05) Run(c *engine.Case) *engine.Result {
 	if err := json.Unmarshal(c.Data, &d); err != nil {
 		panic(err)
 	}
+	if d.Late {
+		return c05Late(d)
+	}
 	var h *real.Host
 	if len(d.Sigs) > 0 {
 		h = customHost(d.Sigs, d.SharedVars)
@@ -508,4 +541,51 @@ func (p *ProgObs) realOutcomeType() string {
 		return "REJECT"
 	}
 	return p.RealType.Canon()
+}
+
+// c05Late: compile the program, register the extra overloads, compile it again with the SAME
+// *types.Env object. After the first compilation the built-ins are already registered, so the
+// late registrations follow them in the table.
+func c05Late(d c05Data) *engine.Result {
+	res := &engine.Result{NonTrivial: true}
+	h := customHost(d.Sigs, d.SharedVars)
+	src := d.Term.Render()
+	funs := &ref.Funs{}
+	funs.Register(ref.BuiltIns().Sigs...)
+	funs.Register(h.Sigs...)
+	wantT, wantErr := ref.NewChecker(funs, d.Env.Types()).Check(d.Term)
+	before := &ref.Funs{}
+	before.Register(ref.BuiltIns().Sigs...)
+	_, beforeErr := ref.NewChecker(before, d.Env.Types()).Check(d.Term)
+	var outs []string
+	for _, b := range []real.Backend{real.VMSwitch, real.Closure} {
+		e := real.NewEngine(b, nil)
+		tenv := d.Env.RawTypeEnv()
+		compile := func() (cb yae.Callable, err error) {
+			defer func() {
+				if r := recover(); r != nil {
+					err = fmt.Errorf("panic: %v", r)
+				}
+			}()
+			return e.Compile(src, tenv)
+		}
+		_, err0 := compile()
+		res.Execs++
+		if (err0 == nil) != (beforeErr == nil) {
+			res.Violations = append(res.Violations, vf("compile-accept-mismatch", "%s before any registration on %s: accepted=%v, the rules say %v", src, b, err0 == nil, beforeErr == nil))
+		}
+		e.RegisterFun(h.Vals...)
+		cb, err1 := compile()
+		res.Execs++
+		outs = append(outs, fmt.Sprint(err1 == nil))
+		switch {
+		case (err1 == nil) && wantErr != nil:
+			res.Violations = append(res.Violations, vf("accepts-ill-typed", "%s after registering %d overloads late on %s is accepted, the rules reject it (%s)", src, len(d.Sigs), b, wantErr.Msg))
+		case err1 != nil && wantErr == nil:
+			res.Violations = append(res.Violations, vf("rejects-well-typed", "%s after registering %d overloads late on %s is rejected (%s), the rules give it type %s", src, len(d.Sigs), b, stable(err1.Error()), wantT))
+		}
+		_ = cb // the stand-in implementations only serve acceptance: values are not judged here
+	}
+	res.Outcome = fmt.Sprintf("late ref=%v real=%v", wantErr == nil, outs)
+	return res
 }
